@@ -80,6 +80,10 @@ NEGATIVE = {   # name -> (constants, invariant that must be reported violated)
 }
 
 SITE = {
+    ("fetch", "porcelain"): "dulwich/porcelain/__init__.py:fetch",
+    ("fetch", "porcelain-pull"): "dulwich/porcelain/__init__.py:pull",
+    ("clone", "porcelain"): "dulwich/porcelain/__init__.py:clone",
+    ("push", "porcelain"): "dulwich/porcelain/__init__.py:push",
     ("fetch", "local"): "dulwich/repo.py:BaseRepo.fetch",
     ("fetch", "localpack"): "dulwich/client.py:LocalGitClient.fetch_pack",
     ("fetch", "mofapi"): "dulwich/object_store.py:MissingObjectFinder",
@@ -192,6 +196,10 @@ def caps_key(j):
     for k in ("thin", "ofs", "sideband"):
         if k in c and not c[k]:
             bits.append("no-" + k)
+    if j.get("via"):
+        bits.append("via:" + j["via"])
+    if j.get("default_refspec"):
+        bits.append("default-refspec")
     if j.get("slayout", "loose") != "loose":
         bits.append("s:" + j["slayout"])
     if j.get("rlayout", "loose") != "loose":
@@ -237,6 +245,19 @@ def jobs_for_case(ctx, c, space, k, gitfrac, tid0):
         tr = ["local", "localpack", "tcp", "gitserver", "gitclient", "http", "githttp", "tcp"][(h >> 18) % 8]
         caps = {"mode": c["mode"]} if tr in ("tcp", "gitserver", "http") else {}
         job("fetch", tr, caps=caps, steps=steps, depth=d, slayout=layout, rlayout="loose")
+    # the porcelain commands: they choose the refs that get written
+    pg = (h >> 24) % ctx.pick(6, 5)
+    via = ["path", "tcp", "http"][(h >> 27) % 3]
+    named = all(tuple(w) in {("c", i) for i in c["sh"]} | {("g", m + 1) for m in range(len(c["U"]["tg"]))} for w in c["wants"])
+    if pg == 0:
+        job("fetch", "porcelain", via=via, slayout=layout, rlayout=rlayout)
+    elif pg == 1 and named:
+        job("fetch", "porcelain-pull", via=via, slayout=layout, rlayout=rlayout, rhead_unborn=1,
+            default_refspec=int((h >> 29) % 3 == 0))
+    elif pg == 2 and named:
+        job("push", "porcelain", via=via, slayout=layout, rlayout=rlayout)
+    elif pg == 3 and not c["rh"] and not c["rt"]:
+        job("clone", "porcelain", via=via, slayout=layout)
     g = (h >> 13) % gitfrac
     if g == 4:
         job("fetch", "http", caps={"mode": c["mode"], "nodone": bool((h >> 11) & 1)}, slayout=layout, rlayout=rlayout)
@@ -329,7 +350,8 @@ def extra_jobs(ctx):
     transports = [("fetch", "local"), ("fetch", "localpack"), ("fetch", "mofapi"), ("fetch", "tcp"), ("fetch", "tcp"), ("fetch", "gitserver"),
                   ("fetch", "gitclient"), ("fetch", "http"), ("fetch", "githttp"),
                   ("push", "local"), ("push", "tcp"), ("push", "gitserver"), ("push", "gitclient"), ("push", "http"), ("push", "githttp"),
-                  ("clone", "local"), ("clone", "tcp"), ("clone", "gitserver"), ("clone", "gitclient"), ("clone", "http")]
+                  ("clone", "local"), ("clone", "tcp"), ("clone", "gitserver"), ("clone", "gitclient"), ("clone", "http"),
+                  ("fetch", "porcelain"), ("fetch", "porcelain-pull"), ("clone", "porcelain"), ("push", "porcelain")]
     for i in range(n_rand):
         c = random_case(rng)
         for op, tr in rng.sample(transports, ctx.pick(2, 3)):
@@ -342,7 +364,10 @@ def extra_jobs(ctx):
             j.update(op=op, transport=tr, caps=caps, space="random", gitcheck=int(rng.random() < 0.5),
                      slayout=rng.choice(["loose", "gitpack", "gitpack", "bitmap"]),
                      rlayout=rng.choice(["loose", "loose", "gitpack"]))
-            if op in ("fetch", "clone") and tr != "mofapi" and rng.random() < 0.35:
+            if tr.startswith("porcelain"):
+                j.update(via=rng.choice(["path", "tcp", "http"]), rhead_unborn=int(tr == "porcelain-pull"),
+                         default_refspec=int(rng.random() < 0.3))
+            if op in ("fetch", "clone") and tr not in ("mofapi", "porcelain-pull") and rng.random() < 0.35:
                 # depth-limited, then perhaps deepened / unshallowed / followed by an ordinary fetch
                 d = rng.randint(1, 3)
                 steps = [{"wants": c["wants"], "depth": d}]
@@ -358,7 +383,7 @@ def extra_jobs(ctx):
             out.append(j)
     # depth-limited fetch by a client with a private history: several unacknowledged haves go out
     # while the server's shallow-info section is already waiting to be read
-    for (npriv, depth) in ctx.pick([(6, 1), (6, 2)], [(6, 1), (6, 2), (12, 1), (3, 2), (20, 3)]):
+    for (npriv, depth) in ctx.pick([(12, 1), (12, 2)], [(6, 1), (6, 2), (12, 1), (3, 2), (20, 3)]):
         par = [[], [1], [2], [1]] + [[i] for i in range(4, 3 + npriv)]
         n = len(par)
         base = {"U": {"par": par, "tr": [1 + (i % 3) for i in range(n)], "ent": POOL, "lnk": POOL_LINK, "tg": []},
@@ -374,8 +399,8 @@ def extra_jobs(ctx):
                 out.append(j)
     for (npriv, ncom, both) in ctx.pick([(270, 3, True), (40, 2, False)], [(270, 3, True), (300, 2, False), (600, 4, True), (40, 2, False)]):
         c = long_case(npriv, ncom, both)
-        for tr in ("tcp", "local", "gitserver"):
-            for mode in (("detailed",) if ctx.quick else ("detailed", "multi", "single")):
+        for tr in ("tcp", "local", "gitserver", "githttp", "http", "gitclient"):
+            for mode in (("detailed",) if ctx.quick or tr in ("githttp", "gitclient") else ("detailed", "multi", "single")):
                 j = {k: c[k] for k in ("U", "sh", "full", "rh", "rt", "wants", "forged", "big")}
                 j.update(op="fetch", transport=tr, caps={"mode": mode}, space="long", gitcheck=0)
                 out.append(j)
@@ -439,6 +464,8 @@ def steps_key(j, r):
     return " steps=" + ";".join(out)
 
 
+PULL_IMPORT_SIG = ("dulwich/porcelain/__init__.py:pull|ReceiverComplete.closed|remote branches and tags that were not fetched "
+                   "are imported as refs/remotes/<remote>/* and refs/tags/* and point at absent objects")
 SHALLOW_LOOP_SIG = ("dulwich/client.py:_handle_upload_pack_head|ReceiverComplete|depth-limited fetch over a stateful transport "
                     "(git://, subprocess) by a client that has heads to offer: shallow-info lines are read and dropped by "
                     "the have loop, .git/shallow misses boundary commits")
@@ -470,6 +497,8 @@ def report(ctx, jobs, recs, verdicts):
             bad_jobs.add(j["tid"])
             if clause.startswith("ReceiverComplete") and r["info"].get("shallow_in_have_loop"):
                 g = ("dulwich/client.py:_handle_upload_pack_head", "shallow-info")
+            elif clause == "ReceiverComplete.closed" and j["transport"] == "porcelain-pull":
+                g = ("dulwich/porcelain/__init__.py:pull", "pull-import")
             else:
                 g = (SITE[(j["op"], j["transport"])], clause)
             viol.setdefault(g, []).append((j, r, detail))
@@ -493,6 +522,14 @@ def report(ctx, jobs, recs, verdicts):
                     f"{j['transport']} of {case_key(j)}{steps_key(j, r)}: .git/shallow = {r['shal1']}, missing {detail}; "
                     f"{len(lst)} executions in this run")
             if ctx.violation(SHALLOW_LOOP_SIG, what, {"job": j, "record": r, "clause": "ReceiverComplete", "detail": detail}):
+                cnt["violations"] += 1
+            continue
+        if clause == "pull-import":
+            j, r, detail = lst[0]
+            what = (f"porcelain.pull of selected refs writes refs for remote branches/tags it did not fetch: e.g. pull "
+                    f"{'(default refspec HEAD)' if j.get('default_refspec') else ''} via {j.get('via')} of {case_key(j)}: "
+                    f"refs now reach {detail}, which are absent; {len(lst)} executions in this run")
+            if ctx.violation(PULL_IMPORT_SIG, what, {"job": j, "record": r, "clause": "ReceiverComplete.closed", "detail": detail}):
                 cnt["violations"] += 1
             continue
         # one report per (site, clause, capability set) for the smallest case (at most three
@@ -650,23 +687,31 @@ def replay(ctx, path):
     recs = X.run_job(j)
     if "machinery" in recs[0]:
         raise MachineryError(recs[0]["machinery"])
-    r = recs[0]
     d = ctx.tmpdir("c05r")
-    v = judge(ctx, d, recs, "replay", nproc=1)[1]
+    vs = judge(ctx, d, recs, "replay", nproc=1)
     fmt = lambda xs: " ".join("%s%d" % tuple(o) for o in xs)
-    print(f"  reported success: {bool(r['ok'])}  {r['err']}")
-    print(f"  sender store     : {fmt(r['sstore'])}\n  advertised       : {fmt(r['srefs'])}\n  wants            : {fmt(r['wants'])}")
-    print(f"  receiver before  : {fmt(r['r0'])}\n  receiver after   : {fmt(r['r1'])}   (unknown ids {r['runk']}, differing bytes {r['idbad']})")
-    print(f"  receiver refs    : {fmt(r['rtips1'])}")
-    if r["cap"]:
-        print(f"  pack on the wire : {fmt(r['sent'])}   thin bases: {fmt(r['thin'])}  ids outside the universe: {r['sunk']}")
-    if r["srv"]:
-        print(f"  server dialogue  : {r['srv']}")
-    if r["cli"]:
-        print(f"  client dialogue  : {r['cli']}")
-    print(f"  info             : {r['info']}")
-    print(f"  TLC verdict      : clause={v[0]} shape={v[1]} detail={v[2]}")
-    if v[0] not in ("ok",) and not v[0].startswith("SpecVsGit") and v[0] != "Antecedent":
+    rc = 0
+    for r in recs:
+        v = vs[r["tid"]]
+        dep = r["depth"]
+        print(f"  --- step {r['step']}: " + ("unshallow" if dep >= 0x7FFFFFFF else f"depth {dep}" if dep else "no depth limit"))
+        print(f"  reported success: {bool(r['ok'])}  {r['err']}")
+        print(f"  sender store     : {fmt(r['sstore'])}\n  advertised       : {fmt(r['srefs'])}\n  wants            : {fmt(r['wants'])}")
+        print(f"  receiver before  : {fmt(r['r0'])}   shallow: {fmt(r['shal0'])}")
+        print(f"  receiver after   : {fmt(r['r1'])}   shallow: {fmt(r['shal1'])}   (unknown ids {r['runk']}, differing bytes {r['idbad']})")
+        print(f"  receiver refs    : {fmt(r['rtips1'])}")
+        if r["cap"]:
+            print(f"  pack on the wire : {fmt(r['sent'])}   thin bases: {fmt(r['thin'])}  ids outside the universe: {r['sunk']}")
+        if r["hk"]:
+            print(f"  haves accepted   : {fmt(r['haves'])}")
+        if r["srv"]:
+            print(f"  server dialogue  : {r['srv']}")
+        if r["cli"]:
+            print(f"  client dialogue  : {r['cli']}")
+        print(f"  info             : {r['info']}")
+        print(f"  TLC verdict      : clause={v[0]} shape={v[1]} detail={v[2]}")
+        if v[0] != "ok" and not v[0].startswith("SpecVsGit") and not (v[0] == "Antecedent" and rc):
+            rc = 1
+    if rc:
         print(f"VIOLATION property=C05 replay={path}")
-        return 1
-    return 0
+    return rc
